@@ -78,6 +78,10 @@ type vHub struct {
 	barN    int
 	barSeen int
 	barCh   chan struct{}
+	// a room join request whose answer is held back (joinrace)
+	roomHold    chan struct{}
+	roomArrived chan struct{}
+	raceDelayMs int
 }
 
 // barrier holds a backend request of a concurrent step until all its competitors have arrived.
@@ -105,7 +109,7 @@ func (h *vHub) barrier() {
 func vHubBackendUrl(h *vHub, b int) string { return fmt.Sprintf("%s/b%d", h.server.URL, b) }
 
 func newVHub(t *testing.T, nBackends int) *vHub {
-	h := &vHub{t: t, clientIds: map[*Client]int{}, conns: map[int]*vConn{}, symOf: map[string]int{}, pubOf: map[int]string{}, privOf: map[int]string{}, nextSym: 1, sessionOk: true}
+	h := &vHub{t: t, clientIds: map[*Client]int{}, conns: map[int]*vConn{}, symOf: map[string]int{}, pubOf: map[int]string{}, privOf: map[int]string{}, nextSym: 1, sessionOk: true, raceDelayMs: 60}
 	r := mux.NewRouter()
 	h.server = httptest.NewServer(r)
 	config := goconf.NewConfigFile()
@@ -200,7 +204,18 @@ func (h *vHub) backendHandler(b int, w http.ResponseWriter, req *http.Request) {
 		h.mu.Lock()
 		reply := h.roomReply
 		h.roomReply = nil
+		hold, arrived := h.roomHold, h.roomArrived
 		h.mu.Unlock()
+		if hold != nil {
+			select {
+			case arrived <- struct{}{}:
+			default:
+			}
+			select {
+			case <-hold:
+			case <-time.After(5 * time.Second):
+			}
+		}
 		if reply == nil {
 			reply = &vRoomReply{kind: "ok"}
 		}
